@@ -3,7 +3,7 @@
 Applies <dir>/patch.diff to /repo, runs the given quick checks, reverts /repo, and records which check
 reported what in <dir>/detect.json (merged with earlier results)."""
 import json, os, re, subprocess, sys
-d = sys.argv[1]; ids = sys.argv[2:]
+d = os.path.abspath(sys.argv[1]); ids = sys.argv[2:]
 def sh(cmd, **kw): return subprocess.run(cmd, shell=True, capture_output=True, text=True, **kw)
 if sh("git -C /repo diff --quiet").returncode != 0:
     print("refusing: /repo has uncommitted changes"); sys.exit(2)
